@@ -91,6 +91,26 @@ func runC11(c *Ctx) {
 				{"below the broadcast address", `^\(net/netip\.Addr\)\.Less\(arg0\.subnet\.nextIP,arg0\.subnet\.broadcast\)$`},
 				{"no host tracked by the session", `^\(\(packet\.Session\)\.FindIP\(recv\.session,arg0\.subnet\.nextIP\)==nil\)$`},
 			})
+			// the cursor moves past the address just picked before the search is left: an outstanding offer is recorded
+			// nowhere else, so the next client's search must start behind it
+			{
+				var pick ssa.Instruction
+				for _, pi := range pred.Instrs {
+					if v, ok := pi.(ssa.Value); ok && v == e {
+						pick = pi
+					}
+				}
+				adv := func(j ssa.Instruction) bool {
+					st, ok := j.(*ssa.Store)
+					return ok && norm(st.Addr) == "arg0.subnet.nextIP" && norm(st.Val) == "(net/netip.Addr).Next(arg0.subnet.nextIP)"
+				}
+				stA := core.Proved
+				if pick == nil || len(phi.Block().Instrs) == 0 || reachesWithout(pick, phi.Block().Instrs[len(phi.Block().Instrs)-1], adv) {
+					stA = core.Violated
+				}
+				r.Add(core.Obligation{Rule: "offer", Key: "offer " + key + " advances the cursor", Func: core.FuncName(alloc), Pos: c.P.Pos(core.PosOf(last)), Status: stA,
+					Basis: "nextIP = nextIP.Next() on every path from the pick to the end of the search", Detail: "the allocation cursor is left on the address just offered: the next client's search starts at the same address, which no table records as taken until it is acknowledged"})
+			}
 			dnf := pathDNF(pred)
 			bad := []string{}
 			for _, d := range dnf {
@@ -424,6 +444,24 @@ func runC12(c *Ctx) {
 			})
 			add("options", "options "+rp.lease+" uses the lease's subnet options and lease time", fn, ins, okOpts && lt, "opts = lease.subnet.CopyOptions(); opts[51] = lease time of that subnet", fmt.Sprintf("options=%s lease-time=%v", shortLease(norm(a[8])), lt))
 		}
+	}
+	// the offered address lies inside the subnet of the client's lease (the subnet whose options the reply carries)
+	r.Rule("inside-subnet", "a requested address is offered only inside the lease's subnet", 3)
+	if alloc := c.P.Method(dhcpRel, "Handler", "allocIPOffer"); alloc != nil {
+		core.EachInstr(alloc, func(i ssa.Instruction) {
+			s, ok := i.(*ssa.Store)
+			if !ok || norm(s.Addr) != "arg0.IPOffer" {
+				return
+			}
+			if _, isParam := s.Val.(*ssa.Parameter); !isParam {
+				return
+			}
+			requireGuards(c, "inside-subnet", "allocIPOffer requested address", i, []guardReq{
+				{"inside the lease's subnet", `^\(net/netip\.Prefix\)\.Contains\(arg0\.subnet\.SubnetConfig\.LAN,arg1\)$`},
+				{"not the network address", `^!\(arg1==\(net/netip\.Prefix\)\.Addr\(arg0\.subnet\.SubnetConfig\.LAN\)\)$`},
+				{"not the broadcast address", `^!\(arg1==arg0\.subnet\.broadcast\)$`},
+			})
+		})
 	}
 	// never ACK what cannot be honoured: every entry into the acknowledgement section has an offer or a lease
 	r.Rule("ack", "the acknowledgement section is entered only with an outstanding offer or lease", 3)
